@@ -148,6 +148,14 @@ def gen_into_case(rng):
         elif r == 1:
             a, sx = gen_convs(rng, 1)
             fattr_src.append(f"#[into{a}] "); fa = [sx]
+        elif r == 2:
+            # a field that is skipped by the struct-level conversion and has a conversion of its own (either order)
+            a, sx = gen_convs(rng, 1)
+            w = rng.choice(["skip", "ignore"])
+            if rng.chance(1, 2):
+                fattr_src.append(f"#[into({w})] #[into{a}] "); fa = ["s", sx]
+            else:
+                fattr_src.append(f"#[into{a}] #[into({w})] "); fa = [sx, "s"]
         else:
             fattr_src.append(""); fa = []
         flds_sx.append(f"(fld (f {C.hexs(n) if n else '-'} {C.hexs(G.strip_ws(t))}) (attrs {' '.join(fa)}))")
